@@ -1,7 +1,7 @@
 (* C09 - concrete witnesses: hypotheses of the theorems are satisfiable by non-trivial values (binary64 instance),
    exactness of zero-filling, and the refutation of zero-filling by multiplication (defect F9). *)
 From Coq Require Import List Arith Bool ZArith Lia PrimFloat.
-Require Import Tensor Num Result C09_Masked C09_Ops C09_Facts C09_Run C09_Core C09_NI C09_NI2 C09_GenTie Gen_C09.
+Require Import Tensor Num Result C09_Masked C09_Ops C09_TfNorm C09_Facts C09_Run C09_Core C09_NI C09_NI2 C09_NI3 C09_GenTie Gen_C09.
 Import ListNotations.
 
 (* one frame, one person, two points, two coordinates; the second point is missing (confidence 0) and holds
@@ -36,6 +36,16 @@ Proof. split; [intros x H; exact H|]. split; [reflexivity|]. split; apply np_cto
 Lemma ex_normalize_runs :
   visible_body F_ops (np_normalize F_ops FE 0 0 1%float ex_np) = visible_body F_ops (np_normalize F_ops FE 0 0 1%float ex_np').
 Proof. apply (np_normalize_ni F_ops FE). exact ex_agree_np. Qed.
+(* the same on the TensorFlow body: the two fillings are stored differently, normalisation cannot tell *)
+Lemma ex_differ_t : bdat ex_t <> bdat ex_t'.
+Proof. intros H. apply (f_equal (fun t => match nth 3 (data t) (0%float, true) with (x, _) => PrimFloat.eqb x (-7)%float end)) in H.
+  vm_compute in H. discriminate. Qed.
+Lemma ex_tf_normalize_runs :
+  bdat ex_t <> bdat ex_t' /\
+  visible_body F_ops (tf_normalize F_ops 0 0 1%float ex_t) = visible_body F_ops (tf_normalize F_ops 0 0 1%float ex_t') /\
+  visible_body F_ops (fst (tf_normalize_distribution F_ops 2 ex_t)) = visible_body F_ops (fst (tf_normalize_distribution F_ops 2 ex_t')).
+Proof. split; [exact ex_differ_t|]. split; [apply (tf_normalize_ni F_ops); exact ex_agree_t|].
+  apply (tf_normalize_distribution_ni F_ops 2 _ _ ex_agree_t). Qed.
 
 (* zero filling *)
 Lemma zero_fill_exact_gen (O : ops) (c : cell O) : snd c = true ->
